@@ -217,6 +217,9 @@ def h_create(n: int, k: int, probe: int, creator='asarray', kind='array', overwr
     checks = []
     if withforeign and kind in ('array', 'ragged', 'plaindir'):
         checks = place_foreign(w, '/w/t', 'file', 'a') + place_foreign(w, '/w/t', 'dir-with-file', 'c')
+        if kind == 'ragged':
+            # user files inside the values/ and indices/ subdirectories of the RaggedArray being replaced
+            checks += place_foreign(w, '/w/t/values', 'file', 'v') + place_foreign(w, '/w/t/indices', 'file', 'i')
     if kind == 'plaindir':
         checks.append('/w/t/user.txt')
     if kind == 'file':
@@ -259,6 +262,8 @@ def h_create_fails(n: int, k: int, probe: int, creator='asarray', kind='plaindir
     w = new_world()
     mk_target(w, kind, n)
     checks = place_foreign(w, '/w/t', 'file', 'a') + place_foreign(w, '/w/t', 'dir-with-file', 'c')
+    if kind == 'ragged':
+        checks += place_foreign(w, '/w/t/values', 'file', 'v') + place_foreign(w, '/w/t/indices', 'file', 'i')
     if kind == 'plaindir':
         checks.append('/w/t/user.txt')
     before = snaps_of(w, checks)
@@ -420,6 +425,8 @@ def replay_c16(cex, d):
             p = tmp + '/t'
             mk(fx['kind'], p)
             paths = place(p, 'file', 'a') + place(p, 'dir-with-file', 'c')
+            if fx['kind'] == 'ragged':
+                paths += place(p + '/values', 'file', 'v') + place(p + '/indices', 'file', 'i')
             if fx['kind'] == 'plaindir':
                 paths.append(p + '/user.txt')
             before = {q: _tree(q) for q in paths}
@@ -474,6 +481,8 @@ def replay_c16(cex, d):
                 paths += place(p, 'file', 'a')
                 if not ob.startswith('W-stale'):
                     paths += place(p, 'dir-with-file', 'c')
+                    if kind == 'ragged':
+                        paths += place(p + '/values', 'file', 'v') + place(p + '/indices', 'file', 'i')
             if kind == 'plaindir':
                 paths.append(p + '/user.txt')
             if kind == 'file':
